@@ -396,7 +396,7 @@ class OverwriteableFileConsumer(PrefixingLogMixin):
                 (start1, end1) = self.overwrites[0]
                 if start1 > end:
                     break
-                end = end1
+                end = max(end, end1)
                 heapq.heappop(self.overwrites)
 
             if end >= next_downloaded:
